@@ -1,7 +1,7 @@
 #!/bin/bash
 # usage: tools/confirm_seed.sh <seed dir with patch.diff demo.py meta.json> <dest name> <pytest args...>
 # confirms in a fresh scratch worktree: demo passes clean, fails with the patch, tests pass with the patch; then stores under /verif/seeded/<dest>
-src="$1"; dest="$2"; shift 2
+src="$(realpath "$1")"; dest="$2"; shift 2
 wt=$(mktemp -d /tmp/cs.XXXX); rmdir "$wt"
 git -C /repo worktree add -q "$wt" HEAD || exit 9
 cp "$src/demo.py" "$wt/_demo.py"
@@ -13,7 +13,7 @@ tests=$(grep -c "failed" /tmp/cs_tests.txt)
 echo "demo clean exit=$clean  demo patched exit=$patched  tests: $(tail -1 /tmp/cs_tests.txt)"
 git -C /repo worktree remove --force "$wt"
 if [ "$clean" = "0" ] && [ "$patched" != "0" ] && [ "$tests" = "0" ]; then
-  mkdir -p "$(dirname "$0")/../seeded/$dest"; cp "$src/patch.diff" "$src/demo.py" "$src/meta.json" "$(dirname "$0")/../seeded/$dest/"
+  d="$(realpath "$(dirname "$0")/..")/seeded/$dest"; mkdir -p "$d"; [ "$src" != "$d" ] && cp "$src/patch.diff" "$src/demo.py" "$src/meta.json" "$d/"
   echo "CONFIRMED -> seeded/$dest"
 else
   echo "NOT CONFIRMED"
